@@ -314,6 +314,21 @@ def check_config(ctx, F, tag):
 
     check_word_count(ctx, F, tag)
 
+    # ---------------- R3 item accessors stay inside the vector: `data.int / set_int(index * width, ..)` is bounds-checked only
+    # against the allocated words, so an index >= len that lands in the unused part of the last word reads zeros / writes the
+    # bits that must stay zero.  The accessors of IntVector guard the index against len() themselves.
+    for fn in ("<int_vector::IntVector as ops::Access<'a>>::get", "<int_vector::IntVector as ops::Access<'a>>::set"):
+        if not F.has_body(fn):
+            continue
+        ab = F.body(fn)
+        for bi, t in ab.calls():
+            if callee_name(t).split("::")[-1] in ("int", "set_int") and "RawVector" in callee_name(t):
+                idx = ("param", 1, ab.local_name(2))
+                g = any(f[0] == "cmp" and f[1] == "Lt" and core(f[2]) == idx and any(x[0] == "call" and x[1].endswith("::len") for x in subterms(f[3])) for f in facts_at(ab, bi)) or \
+                    any(f[0] == "cmp" and f[1] == "Gt" and core(f[3]) == idx and any(x[0] == "call" and x[1].endswith("::len") for x in subterms(f[2])) for f in facts_at(ab, bi))
+                ctx.ob("C05.R3.item-access-inside-the-vector", fn + tag, loc(t["sp"]), g, "guard-dominance",
+                       "data.%s(index * width, ..) dominated by index < len(): %s" % (callee_name(t).split("::")[-1], g))
+
     # ---------------- R3 IntVector co-mutation
     n = 0
     for b in F.all_bodies():
@@ -326,10 +341,13 @@ def check_config(ctx, F, tag):
             if t["args"] and any(x[0] == "field" and x[2] == "data" for x in subterms(b.term_of_operand(t["args"][0]))) and \
                     (nme.split("::")[-1] in ("push_int", "pop_int", "resize", "clear")):
                 muts.append(bi)
+        # ... or the data replaced as a whole on the same path (`v.len = len; v.data = data;` in a constructor from parts)
+        muts += [x[0] for x in field_store_blocks(b, IV, "data") if len(store_path(x[2]["lhs"])) == 1]
         for k, (bi, si, st) in enumerate(trig):
             n += 1
             ok = comutated(b, bi, muts)
-            ctx.ob("C05.R3.int-vector-len-data", "%s|len#%d%s" % (b.name, k, tag), loc(st["sp"]), ok, "co-mutation", positive=True, detail=
+            import inline as _inl
+            ctx.ob("C05.R3.int-vector-len-data", "%s|len#%d%s" % (b.name, k, tag), loc(st["sp"]), ok, "co-mutation", positive=not _inl.only_new([b.name]), detail=
                    "store to IntVector.len %s a length-changing call on IntVector.data on the same path" % ("is accompanied by" if ok else "is NOT accompanied by"))
     # items enter IntVector.data only through the masking writers; word-level fills are zero fills
     from effects import rooted_mut_refs
